@@ -7,136 +7,272 @@ step of every thread **provided** a thread enters the unguarded initialiser only
 (`StepS`; from `warm n` that proviso is vacuous because `FFT_LEN` never becomes negative again).
 
 Every clause but two is linear in the shared variables and in the numbers of threads at fixed *sets* of program points; a
-step moves one thread, so each such number changes by a constant that `decide` computes (`sumL_move`), and `omega`
-discharges every (transition, clause) pair.  The two list clauses (`pend`, `wtl`: the thread-local `len` of the at most one
-thread re-allocating / rebuilding) are handled by hand for the four transitions that touch them.
+step moves one thread, so each such number changes by a constant (`sumW_move`, the constant is read off the set's weight
+function), and `omega` discharges every (transition, clause) pair.  The two list clauses (`pend`, `wtl`: the thread-local
+`len` of the at most one thread re-allocating / rebuilding) are handled by hand for the four transitions that touch them.
 -/
 namespace Soxr.Conc
 
-def ind (p : Pc) (L : List Pc) : Nat := if p ∈ L then 1 else 0
+theorem sumW_move_notin (f w : Pc → Nat) (a b : Pc) :
+    ∀ L : List Pc, a ∉ L → b ∉ L → sumW (move f a b) w L = sumW f w L
+  | [], _, _ => rfl
+  | p :: ps, ha, hb => by
+    simp only [List.mem_cons, not_or] at ha hb
+    have h1 : p ≠ a := fun e => ha.1 e.symm
+    have h2 : p ≠ b := fun e => hb.1 e.symm
+    simp only [sumW, move, h1, h2, if_false, sumW_move_notin f w a b ps ha.2 hb.2]
 
-theorem sumL_move (f : Pc → Nat) (a b : Pc) (hab : a ≠ b) (ha : 0 < f a) :
-    ∀ L : List Pc, L.Nodup → sumL (move f a b) L + ind a L = sumL f L + ind b L
-  | [], _ => by simp [sumL, ind]
-  | p :: ps, hn => by
+theorem sumW_move_a (f w : Pc → Nat) (a b : Pc) (ha : 0 < f a) :
+    ∀ L : List Pc, L.Nodup → a ∈ L → b ∉ L → sumW (move f a b) w L + w a = sumW f w L
+  | [], _, h, _ => by cases h
+  | p :: ps, hn, hm, hb => by
     have hp : p ∉ ps := (List.nodup_cons.mp hn).1
-    have ih := sumL_move f a b hab ha ps (List.nodup_cons.mp hn).2
+    simp only [List.mem_cons, not_or] at hb
+    have h2 : p ≠ b := fun e => hb.1 e.symm
     by_cases h1 : p = a
     · subst h1
-      have : ind p ps = 0 := by simp [ind, hp]
-      have hb : ind b (p :: ps) = ind b ps := by
-        simp only [ind, List.mem_cons]
-        have : b ≠ p := fun h => hab h.symm
-        simp [this]
-      have ha' : ind p (p :: ps) = 1 := by simp [ind]
-      simp only [sumL, move, if_true, hb, ha']
+      have := sumW_move_notin f w p b ps hp hb.2
+      simp only [sumW, move, if_true, this]
+      have : w p * (f p - 1) + w p = w p * f p := by
+        rw [← Nat.mul_succ]; congr 1; omega
       omega
-    · by_cases h2 : p = b
+    · have hm' : a ∈ ps := by
+        rcases List.mem_cons.mp hm with e | e
+        · exact absurd e.symm h1
+        · exact e
+      have ih := sumW_move_a f w a b ha ps (List.nodup_cons.mp hn).2 hm' hb.2
+      simp only [sumW, move, h1, h2, if_false]
+      omega
+
+theorem sumW_move_b (f w : Pc → Nat) (a b : Pc) :
+    ∀ L : List Pc, L.Nodup → a ∉ L → b ∈ L → sumW (move f a b) w L = sumW f w L + w b
+  | [], _, _, h => by cases h
+  | p :: ps, hn, ha, hm => by
+    have hp : p ∉ ps := (List.nodup_cons.mp hn).1
+    simp only [List.mem_cons, not_or] at ha
+    have h1 : p ≠ a := fun e => ha.1 e.symm
+    by_cases h2 : p = b
+    · subst h2
+      have := sumW_move_notin f w a p ps ha.2 hp
+      simp only [sumW, move, h1, if_false, if_true, this, Nat.mul_add, Nat.mul_one]
+      omega
+    · have hm' : b ∈ ps := by
+        rcases List.mem_cons.mp hm with e | e
+        · exact absurd e.symm h2
+        · exact e
+      have ih := sumW_move_b f w a b ps (List.nodup_cons.mp hn).2 ha.2 hm'
+      simp only [sumW, move, h1, h2, if_false]
+      omega
+
+/-- moving a thread from `a` to `b ≠ a` changes a weighted thread number by `w b - w a` -/
+theorem sumW_move (f w : Pc → Nat) (a b : Pc) (hab : a ≠ b) (ha : 0 < f a) :
+    ∀ L : List Pc, L.Nodup → a ∈ L → b ∈ L → sumW (move f a b) w L + w a = sumW f w L + w b
+  | [], _, h, _ => by cases h
+  | p :: ps, hn, hma, hmb => by
+    have hp : p ∉ ps := (List.nodup_cons.mp hn).1
+    have hn' := (List.nodup_cons.mp hn).2
+    by_cases h1 : p = a
+    · subst h1
+      have hb' : b ∈ ps := by
+        rcases List.mem_cons.mp hmb with e | e
+        · exact absurd e.symm hab
+        · exact e
+      have := sumW_move_b f w p b ps hn' hp hb'
+      simp only [sumW, move, if_true, this]
+      have : w p * (f p - 1) + w p = w p * f p := by
+        rw [← Nat.mul_succ]; congr 1; omega
+      omega
+    · have ha' : a ∈ ps := by
+        rcases List.mem_cons.mp hma with e | e
+        · exact absurd e.symm h1
+        · exact e
+      by_cases h2 : p = b
       · subst h2
-        have : ind p ps = 0 := by simp [ind, hp]
-        have hb : ind a (p :: ps) = ind a ps := by
-          simp only [ind, List.mem_cons]
-          simp [hab]
-        have hb' : ind p (p :: ps) = 1 := by simp [ind]
-        simp only [sumL, move, h1, if_false, if_true, hb, hb']
+        have := sumW_move_a f w a p ha ps hn' ha' hp
+        simp only [sumW, move, h1, if_false, if_true, Nat.mul_add, Nat.mul_one]
         omega
-      · have e1 : ind a (p :: ps) = ind a ps := by
-          simp only [ind, List.mem_cons]
-          have : a ≠ p := fun h => h1 h.symm
-          simp [this]
-        have e2 : ind b (p :: ps) = ind b ps := by
-          simp only [ind, List.mem_cons]
-          have : b ≠ p := fun h => h2 h.symm
-          simp [this]
-        simp only [sumL, move, h1, h2, if_false, e1, e2]
+      · have hb' : b ∈ ps := by
+          rcases List.mem_cons.mp hmb with e | e
+          · exact absurd e.symm h2
+          · exact e
+        have ih := sumW_move f w a b hab ha ps hn' ha' hb'
+        simp only [sumW, move, h1, h2, if_false]
         omega
+
+theorem allS_nodup : allS.Nodup := by decide
+theorem mem_allS (p : Pc) : p ∈ allS := by cases p <;> decide
+
+/-- the form used below -/
+theorem num_move (s : St) (w : Pc → Nat) (a b : Pc) (hab : a ≠ b) (ha : 0 < s.cnt a) :
+    sumW (move s.cnt a b) w allS + w a = s.num w + w b :=
+  sumW_move s.cnt w a b hab ha allS allS_nodup (mem_allS a) (mem_allS b)
 
 /-! Sets of program points used by the invariant. -/
 /-- holding `mutex_1` -/
-def m1S : List Pc := [.r4, .r5, .r6, .e4, .e5, .e6, .x2, .x3, .x4, .u2, .u3, .u4]
+def m1W : Pc → Nat
+  | .r4 | .r5 | .r6 | .e4 | .e5 | .e6 | .x2 | .x3 | .x4 | .u2 | .u3 | .u4 => 1
+  | _ => 0
 /-- between `++readcount` and `--readcount` -/
-def rcS : List Pc := [.r5, .r6, .r7, .r8, .c0, .rd, .x1, .x2, .u1, .u2, .e5, .e6, .e7, .e8, .c2]
+def rcW : Pc → Nat
+  | .r5 | .r6 | .r7 | .r8 | .c0 | .rd | .x1 | .x2 | .u1 | .u2 | .e5 | .e6 | .e7 | .e8 | .c2 => 1
+  | _ => 0
 /-- first reader waiting for `w` -/
-def r5S : List Pc := [.r5, .e5]
+def r5W : Pc → Nat
+  | .r5 | .e5 => 1
+  | _ => 0
 /-- last reader about to release `w` -/
-def x3S : List Pc := [.x3, .u3]
+def x3W : Pc → Nat
+  | .x3 | .u3 => 1
+  | _ => 0
 /-- anywhere past the initialiser -/
-def busyS : List Pc :=
-  [.r1, .r2, .r3, .r4, .r5, .r6, .r7, .r8, .c0, .rd, .x1, .x2, .x3, .x4, .u1, .u2, .u3, .u4, .w1, .w2, .w3, .w4, .w5,
-   .c1, .b0, .wt, .y1, .y2, .y3, .y4, .y5, .d1, .d2, .d3, .d4, .d5, .e1, .e2, .e3, .e4, .e5, .e6, .e7, .e8, .c2]
-/-- points only reached after a test `len <= FFT_LEN` succeeded with a positive `len` -/
-def posS : List Pc :=
-  [.rd, .c2, .d1, .d2, .d3, .d4, .d5, .e1, .e2, .e3, .e4, .e5, .e6, .e7, .e8, .x1, .x2, .x3, .x4]
+def busyW : Pc → Nat
+  | .idle | .i0 | .i1 | .i2 | .i3 | .i4 | .i5 | .i6 => 0
+  | _ => 1
+/-- points only reached after a test `len <= FFT_LEN` succeeded (with a positive `len`) -/
+def posW : Pc → Nat
+  | .rd | .c2 | .d1 | .d2 | .d3 | .d4 | .d5 | .e1 | .e2 | .e3 | .e4 | .e5 | .e6 | .e7 | .e8 | .x1 | .x2 | .x3 | .x4 => 1
+  | _ => 0
+/-- holding `mutex_1`, about to change `readcount` -/
+def r4W : Pc → Nat
+  | .r4 | .e4 | .x2 | .u2 => 1
+  | _ => 0
+def b0W : Pc → Nat
+  | .b0 => 1
+  | _ => 0
+def wtW : Pc → Nat
+  | .wt => 1
+  | _ => 0
 
-/-- the linear clauses -/
-structure InvL (s : St) : Prop where
+/-- the readers/writers protocol: who holds `mutex_1` and `w`, what `readcount` counts -/
+structure InvA (s : St) : Prop where
   -- mutex_1 is held exactly by the threads between its P and V
-  m1_def : s.m1 = s.num m1S
+  m1_def : s.m1 = s.num m1W
   m1_le : s.m1 ≤ 1
   -- readcount counts the threads between `++readcount` and `--readcount`
-  rc_def : s.readcount = (s.num rcS : Int)
+  rc_def : s.readcount = (s.num rcW : Int)
   -- `w` is held by the one writer or by the reader group
-  w_def : s.w = s.num writersS + s.gw
+  w_def : s.w = s.num writersW + s.gw
   w_le : s.w ≤ 1
   gw_le : s.gw ≤ 1
-  gw_on : s.gw = 1 → (0 < s.readcount ∧ s.num r5S = 0) ∨ s.num x3S = 1
-  gw_off : s.gw = 0 → (s.readcount = 0 ∨ s.num r5S = 1) ∧ s.num x3S = 0
-  r5_rc : 0 < s.num r5S → s.readcount = 1
-  x3_rc : 0 < s.num x3S → s.readcount = 0
-  -- the initialiser: at most one thread inside; before it completes nobody is anywhere else; afterwards nobody is inside
-  init_le : s.num inInitS ≤ 1
+  gw_on : s.gw = 1 → (0 < s.readcount ∧ s.num r5W = 0) ∨ s.num x3W = 1
+  gw_off : s.gw = 0 → (s.readcount = 0 ∨ s.num r5W = 1) ∧ s.num x3W = 0
+  r5_rc : 0 < s.num r5W → s.readcount = 1
+  x3_rc : 0 < s.num x3W → s.readcount = 0
+
+/-- the initialiser: at most one thread inside; before it completes nobody is anywhere else; afterwards nobody is inside -/
+structure InvB (s : St) : Prop where
+  init_le : s.num inInitW ≤ 1
   flen_ge : -1 ≤ s.flen
-  cold_quiet : s.flen < 0 → s.num busyS = 0 ∧ s.m1 = 0 ∧ s.w = 0 ∧ s.gw = 0 ∧ s.readcount = 0 ∧ s.tab = 0 ∧
-    s.nReset = 0 ∧ s.nStore = 0 ∧ s.nInit = s.num inInitS
-  warm_done : 0 ≤ s.flen → s.num inInitS = 0 ∧ s.nInit = 1 ∧ s.nReset = 1
-  -- the tables
-  pend_len : s.pend.length = s.num [.b0]
-  wtl_len : s.wtl.length = s.num [.wt]
+  cold_quiet : s.flen < 0 → s.num busyW = 0 ∧ s.m1 = 0 ∧ s.w = 0 ∧ s.gw = 0 ∧ s.readcount = 0 ∧ s.tab = 0 ∧
+    s.nReset = 0 ∧ s.nStore = 0 ∧ s.nInit = s.num inInitW
+  warm_done : 0 ≤ s.flen → s.num inInitW = 0 ∧ s.nInit = 1 ∧ s.nReset = 1
+
+/-- the tables -/
+structure InvC (s : St) : Prop where
+  pend_len : s.pend.length = s.num b0W
+  wtl_len : s.wtl.length = s.num wtW
   tab_ge : 0 ≤ s.tab
   tab_le : 0 ≤ s.flen → s.tab ≤ s.flen
-  tab_eq : s.num [.wt] = 0 → 0 ≤ s.flen → s.tab = s.flen
+  tab_eq : s.num wtW = 0 → 0 ≤ s.flen → s.tab = s.flen
   store_le : 0 ≤ s.flen → (s.nStore : Int) ≤ s.flen
-  flen_pos : 0 < s.num posS → 0 < s.flen
+  flen_pos : 0 < s.num posW → 0 < s.flen
 
-/-- the two clauses about the thread-local `len` of the thread that is re-allocating (`b0`) / rebuilding (`wt`) -/
+/-- the thread-local `len` of the thread that is re-allocating (`b0`) / rebuilding (`wt`) -/
 structure InvD (s : St) : Prop where
   pend_gt : ∀ x ∈ s.pend, s.flen < x
   wtl_eq : ∀ x ∈ s.wtl, x = s.flen
 
 structure Inv (s : St) : Prop where
-  lin : InvL s
-  dat : InvD s
+  a : InvA s
+  b : InvB s
+  c : InvC s
+  d : InvD s
 
-theorem sumL_zero (n : Nat) (L : List Pc) (h : Pc.idle ∉ L) : sumL (fun p => if p = .idle then n else 0) L = 0 := by
-  induction L with
-  | nil => rfl
-  | cons p ps ih =>
-    simp only [List.mem_cons, not_or] at h
-    have : p ≠ .idle := fun e => h.1 e.symm
-    simp [sumL, this, ih h.2]
+/-- with all threads outside, every set that excludes `idle` is empty -/
+theorem sumW_idle (n : Nat) (w : Pc → Nat) (h : w .idle = 0) : sumW (fun p => if p = .idle then n else 0) w allS = 0 := by
+  simp [sumW, allS, h]
 
-theorem inv_warm (n : Nat) : Inv (warm n) := by
-  refine ⟨?_, ?_⟩
-  · constructor <;> simp [warm, zero, St.num, sumL_zero, m1S, rcS, writersS, r5S, x3S, inInitS, busyS, posS]
-  · constructor <;> simp [warm, zero]
-
-theorem inv_cold (n : Nat) : Inv (cold n) := by
-  refine ⟨?_, ?_⟩
-  · constructor <;> simp [cold, zero, St.num, sumL_zero, m1S, rcS, writersS, r5S, x3S, inInitS, busyS, posS]
-  · constructor <;> simp [cold, zero]
+/-- nothing has happened yet apart from (part of) one initialisation -/
+structure Quiet (s : St) : Prop where
+  busy : s.num busyW = 0
+  m1 : s.m1 = 0
+  w : s.w = 0
+  gw : s.gw = 0
+  rc : s.readcount = 0
+  tab : s.tab = 0
+  nStore : s.nStore = 0
+  pend : s.pend = []
+  wtl : s.wtl = []
+  init_le : s.num inInitW ≤ 1
+  phase : (s.flen = -1 ∧ s.nReset = 0 ∧ s.nInit = s.num inInitW) ∨ (s.flen = 0 ∧ s.num inInitW = 0 ∧ s.nInit = 1 ∧ s.nReset = 1)
 
 /-- static inclusions between the sets, as inequalities between the thread numbers -/
 structure Incl (s : St) : Prop where
-  b0_wt : s.num [.b0] + s.num [.wt] ≤ s.num writersS
-  m1_busy : s.num m1S ≤ s.num busyS
-  rc_busy : s.num rcS ≤ s.num busyS
-  wr_busy : s.num writersS ≤ s.num busyS
-  pos_busy : s.num posS ≤ s.num busyS
-  r5_rc : s.num r5S ≤ s.num rcS
-  r5_m1 : s.num r5S + s.num x3S ≤ s.num m1S
-  x3_busy : s.num x3S ≤ s.num busyS
+  b0_wt : s.num b0W + s.num wtW ≤ s.num writersW
+  m1_busy : s.num m1W ≤ s.num busyW
+  rc_busy : s.num rcW ≤ s.num busyW
+  wr_busy : s.num writersW ≤ s.num busyW
+  pos_busy : s.num posW ≤ s.num busyW
+  r5_rc : s.num r5W ≤ s.num rcW
+  r5_m1 : s.num r5W + s.num x3W + s.num r4W ≤ s.num m1W
+  rd_rc : s.num readersW + s.num r5W = s.num rcW
+  rb_wr : s.num rebuildingW = s.num b0W + s.num wtW
+  rd_rd : s.num readingW ≤ s.num readersW
+  rd_pos : s.num readingW ≤ s.num posW
 
 theorem incl (s : St) : Incl s := by
-  constructor <;> simp only [St.num, sumL, m1S, rcS, writersS, r5S, x3S, busyS, posS] <;> omega
+  constructor <;>
+    simp only [St.num, sumW, allS, m1W, rcW, writersW, r5W, x3W, r4W, busyW, posW, b0W, wtW, readersW, rebuildingW, readingW,
+      Nat.zero_mul, Nat.one_mul, Nat.zero_add, Nat.add_zero] <;> omega
+
+/-- a thread at a point of a set is counted in the set -/
+theorem sumW_ge (f w : Pc → Nat) (a : Pc) (ha : 0 < f a) : ∀ L : List Pc, a ∈ L → w a ≤ sumW f w L
+  | [], h => by cases h
+  | p :: ps, h => by
+    by_cases h1 : p = a
+    · subst h1
+      simp only [sumW]
+      have : w p * 1 ≤ w p * f p := Nat.mul_le_mul_left _ ha
+      omega
+    · have : a ∈ ps := by
+        rcases List.mem_cons.mp h with e | e
+        · exact absurd e.symm h1
+        · exact e
+      have := sumW_ge f w a ha ps this
+      simp only [sumW]; omega
+
+theorem num_ge (s : St) (w : Pc → Nat) (a : Pc) (ha : 0 < s.cnt a) : w a ≤ s.num w :=
+  sumW_ge s.cnt w a ha allS (mem_allS a)
+
+theorem inv_of_quiet {s : St} (q : Quiet s) : Inv s := by
+  obtain ⟨q1, q2, q3, q4, q5, q6, q7, q8, q9, q10, q11⟩ := q
+  obtain ⟨j1, j2, j3, j4, j5, j6, j7, j8, j9, j10, j11⟩ := incl s
+  refine ⟨?_, ?_, ?_, ?_⟩
+  · constructor <;> omega
+  · constructor <;> omega
+  · constructor <;> (try simp only [q8, q9, List.length_nil]) <;> omega
+  · constructor <;> simp [q8, q9]
+
+theorem quiet_zero (s : St) (n : Nat) (hc : s.cnt = fun p => if p = .idle then n else 0)
+    (h : s.m1 = 0 ∧ s.w = 0 ∧ s.gw = 0 ∧ s.readcount = 0 ∧ s.tab = 0 ∧ s.pend = [] ∧ s.wtl = [] ∧ s.nStore = 0)
+    (hf : (s.flen = -1 ∧ s.nInit = 0 ∧ s.nReset = 0) ∨ (s.flen = 0 ∧ s.nInit = 1 ∧ s.nReset = 1)) : Quiet s := by
+  obtain ⟨e1, e2, e3, e4, e5, e6, e7, e8⟩ := h
+  have z (w : Pc → Nat) (h : w .idle = 0) : s.num w = 0 := by simp only [St.num, hc]; exact sumW_idle n w h
+  have z6 := z inInitW rfl; have z7 := z busyW rfl
+  exact ⟨z7, e1, e2, e3, e4, e5, e8, e6, e7, by omega, by omega⟩
+
+theorem inv_warm (n : Nat) : Inv (warm n) :=
+  inv_of_quiet (quiet_zero _ n rfl (by simp [warm, zero]) (Or.inr (by simp [warm, zero])))
+
+theorem inv_cold (n : Nat) : Inv (cold n) :=
+  inv_of_quiet (quiet_zero _ n rfl (by simp [cold, zero]) (Or.inl (by simp [cold, zero])))
+
+theorem quiet_of_cold {s : St} (h : Inv s) (hf : s.flen < 0) : Quiet s := by
+  obtain ⟨_, ⟨b1, b2, b3, b4⟩, ⟨c1, c2, _, _, _, _, _⟩, _⟩ := h
+  obtain ⟨j1, j2, j3, j4, j5, j6, j7, j8, j9, j10, j11⟩ := incl s
+  obtain ⟨e1, e2, e3, e4, e5, e6, e7, e8, e9⟩ := b3 hf
+  have hp : s.pend = [] := List.eq_nil_of_length_eq_zero (by omega)
+  have hw : s.wtl = [] := List.eq_nil_of_length_eq_zero (by omega)
+  exact ⟨e1, e2, e3, e4, e5, e6, e8, hp, hw, b1, by omega⟩
 
 end Soxr.Conc
